@@ -59,6 +59,160 @@ func genC10(rt *rapid.T) netCase {
 	return c
 }
 
+// genManyPorts: one direct connection with 65-200 plugged ports. Most ports
+// are idle receivers owned by one or two bulk agents; a few active agents own
+// the sender ports. The receiver plugged in as port #k fills up and is not
+// read (never, or for 20-80 periods) while a sender keeps a backlog for it;
+// later, when the connection has gone quiet, single messages are sent from
+// other source ports to idle receivers at drawn plug-in indices: k+64j for
+// about half of them (construction, not hope, makes index arithmetic modulo
+// the machine word size reachable), any other index for the rest.
+func genManyPorts(rt *rapid.T, connFreqs []uint64) netCase {
+	var c netCase
+	c.ConnFreq = []uint64{rapid.SampledFrom(connFreqs).Draw(rt, "connfreq")}
+	per := period(c.ConnFreq[0])
+	n := rapid.IntRange(65, 200).Draw(rt, "nports")
+	k := rapid.IntRange(0, n-65).Draw(rt, "stalledidx")
+
+	newAgent := func(label string) netAgent {
+		a := netAgent{Drain: true, Kind: kindEvent}
+		if rapid.IntRange(0, 9).Draw(rt, label+"kind") >= 6 {
+			a.Kind = kindTicking
+			a.Freq = rapid.SampledFrom(c09AgentFreqs).Draw(rt, label+"freq")
+			a.PerAct = rapid.IntRange(0, 3).Draw(rt, label+"peract")
+		}
+		return a
+	}
+	// agent 0: owner of the stalled receiver
+	stalled := newAgent("stalled")
+	if rapid.IntRange(0, 2).Draw(rt, "stallforever") != 0 {
+		stalled.Drain = false
+	} else {
+		stalled.Stalls = []netStall{{From: 0, To: uint64(rapid.IntRange(20, 80).Draw(rt, "stallperiods")) * per}}
+	}
+	c.Agents = append(c.Agents, stalled)
+	nActive := rapid.IntRange(2, 4).Draw(rt, "nactive")
+	for i := 0; i < nActive; i++ {
+		c.Agents = append(c.Agents, newAgent("active"))
+	}
+	nBulk := rapid.IntRange(1, 2).Draw(rt, "nbulk")
+	for i := 0; i < nBulk; i++ {
+		c.Agents = append(c.Agents, newAgent("bulk"))
+	}
+	firstBulk := 1 + nActive
+
+	// owners by plug-in index
+	owner := make([]int, n)
+	for i := range owner {
+		owner[i] = -1
+	}
+	owner[k] = 0
+	ns := rapid.IntRange(2, 5).Draw(rt, "nsenders")
+	var senders []int
+	for len(senders) < ns {
+		i := rapid.IntRange(0, n-1).Draw(rt, "senderidx")
+		if owner[i] != -1 {
+			continue
+		}
+		owner[i] = 1 + rapid.IntRange(0, nActive-1).Draw(rt, "senderowner")
+		senders = append(senders, i)
+	}
+	for i := range owner {
+		if owner[i] != -1 {
+			continue
+		}
+		if rapid.IntRange(0, 9).Draw(rt, "fillowner") == 0 {
+			owner[i] = 1 + rapid.IntRange(0, nActive-1).Draw(rt, "fillactive")
+		} else {
+			owner[i] = firstBulk + rapid.IntRange(0, nBulk-1).Draw(rt, "fillbulk")
+		}
+	}
+	slot := make([]netSlot, n)
+	for i, o := range owner {
+		cp := rapid.IntRange(1, 4).Draw(rt, "cap")
+		if i == k {
+			cp = rapid.IntRange(1, 2).Draw(rt, "stalledcap")
+		}
+		pt := netPort{Conn: 0, Cap: cp}
+		if rapid.IntRange(0, 5).Draw(rt, "asym") == 0 {
+			if oc := rapid.IntRange(1, 4).Draw(rt, "outcap"); oc != cp {
+				pt.OutCap = oc
+			}
+		}
+		c.Agents[o].Ports = append(c.Agents[o].Ports, pt)
+		slot[i] = netSlot{A: o, P: len(c.Agents[o].Ports) - 1}
+	}
+	c.Plug = slot
+	portAt := func(i int) netPort { return c.Agents[slot[i].A].Ports[slot[i].P] }
+	send := func(from, to int, at uint64, cnt int) {
+		a := &c.Agents[slot[from].A]
+		a.Sends = append(a.Sends, netSend{At: at, Port: slot[from].P, DstA: slot[to].A, DstP: slot[to].P, N: cnt})
+	}
+
+	// the blocker(s): fill receiver #k and keep a backlog for it
+	nb := rapid.IntRange(1, 2).Draw(rt, "nblockers")
+	for b := 0; b < nb; b++ {
+		x := senders[b]
+		cnt := portAt(k).Cap + portAt(x).outCap() + rapid.IntRange(0, 3).Draw(rt, "backlog")
+		send(x, k, genTime(rt, per, 2), cnt)
+	}
+	// quiet single sends afterwards
+	nq := rapid.IntRange(2, 7).Draw(rt, "nquiet")
+	for q := 0; q < nq; q++ {
+		from := senders[rapid.IntRange(0, len(senders)-1).Draw(rt, "quietfrom")]
+		var to int
+		if rapid.IntRange(0, 1).Draw(rt, "congruent") == 0 {
+			jmax := (n - 1 - k) / 64
+			to = k + 64*rapid.IntRange(1, jmax).Draw(rt, "j")
+		} else {
+			to = rapid.IntRange(0, n-1).Draw(rt, "quietto")
+		}
+		if to == from {
+			continue
+		}
+		at := uint64(rapid.IntRange(4, 30).Draw(rt, "quietk")) * per
+		if rapid.IntRange(0, 3).Draw(rt, "quietoffq") == 0 {
+			at += rapid.Uint64Range(0, per-1).Draw(rt, "quietoff")
+		}
+		send(from, to, at, rapid.IntRange(1, 2).Draw(rt, "quietn"))
+	}
+	// some ordinary traffic between arbitrary ports
+	nn := rapid.IntRange(0, 3).Draw(rt, "nnoise")
+	for q := 0; q < nn; q++ {
+		from := rapid.IntRange(0, n-1).Draw(rt, "noisefrom")
+		to := rapid.IntRange(0, n-1).Draw(rt, "noiseto")
+		if from == to {
+			continue
+		}
+		send(from, to, genTime(rt, per, 12), rapid.IntRange(1, 4).Draw(rt, "noisen"))
+	}
+	return c
+}
+
+// manyPortClasses labels what the many-ports machinery actually reached.
+func manyPortClasses(c netCase, r *netRun) []string {
+	var cl []string
+	for _, ps := range r.rec.portsOfConn {
+		if len(ps) > 64 {
+			cl = append(cl, "ports>64")
+			break
+		}
+	}
+	if r.rec.stalledFullBlocked {
+		cl = append(cl, "stalled-full-receiver-with-blocked-sender")
+	}
+	if r.rec.quietCongruentSend > 0 {
+		cl = append(cl, "quiet-send-to-index-congruent-mod-64")
+	}
+	if r.rec.congruentSend > 0 {
+		cl = append(cl, "send-to-index-congruent-mod-64-of-stalled-full-receiver")
+	}
+	if r.rec.nonCongruentSendBlocked > 0 {
+		cl = append(cl, "send-to-other-index-while-receiver-stalled-full")
+	}
+	return cl
+}
+
 func c10Classes(c netCase, r *netRun) (classes []string, nontrivial bool) {
 	srcs := map[string]bool{}
 	pairs := map[string]bool{}
@@ -70,7 +224,9 @@ func c10Classes(c netCase, r *netRun) (classes []string, nontrivial bool) {
 	for _, a := range c.Agents {
 		nports += len(a.Ports)
 	}
-	classes = append(classes, fmt.Sprintf("ports=%d", nports))
+	if nports <= 6 {
+		classes = append(classes, fmt.Sprintf("ports=%d", nports))
+	}
 	if len(srcs) >= 3 {
 		classes = append(classes, "sources>=3")
 	}
@@ -81,6 +237,7 @@ func c10Classes(c netCase, r *netRun) (classes []string, nontrivial bool) {
 		classes = append(classes, "sender-saw-full-port(refill-on-NotifyPortFree)")
 	}
 	classes = append(classes, asymClasses(c, r)...)
+	classes = append(classes, manyPortClasses(c, r)...)
 	full := false
 	for p, m := range r.rec.maxInOcc {
 		if m >= r.rec.capOfPort[p] {
@@ -126,7 +283,7 @@ func c10Classes(c netCase, r *netRun) (classes []string, nontrivial bool) {
 
 func TestC10DirectConnection(t *testing.T) {
 	s := kit.Begin(t, "C10", "oneconn",
-		"one direct connection (1/2/0.5/1.5/3 GHz, 800 MHz, 7 MHz), 2-6 plugged ports (caps 1-4; 19% with different incoming/outgoing capacities via messaging.NewPort) owned by 2-6 ticking/event-driven agents; per agent 0-4 timer bursts of 1-12 messages (times k*period, k<=8, 40% off-edge), 0-2 receipt-driven forwards, senders keep the backlog in State and refill on NotifyPortFree; receivers: 0-2 read stalls of 1-60 periods, ticking receivers read at most 0(all)/1/2/3 messages per port per tick, 8% never read. Oracle from port hooks: every Recvd is a sent message, at most once, at the port named by Dst, DeepEqual to what was sent, not before it was sent; per (src,dst) deliveries are a prefix of the sends in order; what the owner reads = what was delivered, in order; modelled incoming occupancy never exceeds the capacity; at Run's return no outgoing head is deliverable and, when all receivers drain, every sent message was delivered exactly once and consumed. Non-trivial: a delivery happened while another port of the connection was full with traffic pending for it, and >=3 distinct source ports had messages delivered")
+		"one direct connection (1/2/0.5/1.5/3 GHz, 800 MHz, 7 MHz), 2-6 plugged ports (caps 1-4; 19% with different incoming/outgoing capacities via messaging.NewPort), or in about 1 of 6 cases 65-200 plugged ports in a drawn plug-in order (most of them idle receivers of 1-2 bulk agents, 2-5 sender ports of 2-4 active agents, the receiver at drawn index k filled by a sender with a backlog and never read (2/3) or not read for 20-80 periods, then 2-7 single messages at 4-30 periods from other source ports to receivers at index k+64j (half) or any index (half), plus 0-3 ordinary bursts) owned by 2-6 ticking/event-driven agents; per agent 0-4 timer bursts of 1-12 messages (times k*period, k<=8, 40% off-edge), 0-2 receipt-driven forwards, senders keep the backlog in State and refill on NotifyPortFree; receivers: 0-2 read stalls of 1-60 periods, ticking receivers read at most 0(all)/1/2/3 messages per port per tick, 8% never read. Oracle from port hooks: every Recvd is a sent message, at most once, at the port named by Dst, DeepEqual to what was sent, not before it was sent; per (src,dst) deliveries are a prefix of the sends in order; what the owner reads = what was delivered, in order; modelled incoming occupancy never exceeds the capacity; at Run's return no outgoing head is deliverable and, when all receivers drain, every sent message was delivered exactly once and consumed. Non-trivial: a delivery happened while another port of the connection was full with traffic pending for it, and >=3 distinct source ports had messages delivered")
 	defer s.End()
 	s.Assume("message identity = unique MsgMeta.ID assigned by the harness; 'unmodified' = reflect.DeepEqual of the message value seen by the Recvd hook / RetrieveIncoming and the value passed to Send")
 
@@ -171,5 +328,11 @@ func TestC10DirectConnection(t *testing.T) {
 	}
 
 	kit.SetChecks(25_000, 300_000)
-	rapid.Check(t, func(rt *rapid.T) { run(rt, genC10(rt)) })
+	rapid.Check(t, func(rt *rapid.T) {
+		if rapid.IntRange(0, 7).Draw(rt, "manyports") == 0 {
+			run(rt, genManyPorts(rt, c10ConnFreqs))
+			return
+		}
+		run(rt, genC10(rt))
+	})
 }
